@@ -17,7 +17,7 @@ Section Pipeline.
     match ls with
     | [] => []
     | [l] => [plain TIdent l]
-    | l :: t => plain TIdent l :: plain TComma [] :: print_names t
+    | l :: t => plain TIdent l :: punct TComma :: print_names t
     end.
 
   (** the fragment, with what makes a stage well-formed *)
@@ -34,32 +34,32 @@ Section Pipeline.
 
   Fixpoint print_tmpls (ts : list (bytes * bytes)) : list token :=
     match ts with
-    | (dst, tm) :: ts' => plain TIdent dst :: plain TEq [] :: str_tok tm :: match ts' with [] => [] | _ => plain TComma [] :: print_tmpls ts' end
+    | (dst, tm) :: ts' => plain TIdent dst :: punct TEq :: str_tok tm :: match ts' with [] => [] | _ => punct TComma :: print_tmpls ts' end
     | [] => []
     end.
   Fixpoint print_lf (rs ts : list (bytes * bytes)) : list token :=
     match rs with
     | (src, dst) :: rs' =>
-        plain TIdent dst :: plain TEq [] :: plain TIdent src ::
-        match rs', ts with [], [] => [] | _, _ => plain TComma [] :: print_lf rs' ts end
+        plain TIdent dst :: punct TEq :: plain TIdent src ::
+        match rs', ts with [], [] => [] | _, _ => punct TComma :: print_lf rs' ts end
     | [] => print_tmpls ts
     end.
   Definition lf_dsts (rs ts : list (bytes * bytes)) : list bytes := map snd rs ++ map fst ts.
 
   Definition print_stage (s : stage) : list token :=
     match s with
-    | SLine o v false => [plain (lineop_tok o) []; str_tok v]
-    | SLine o v true => [plain (lineop_tok o) []; plain TIP []; plain TOpenParen []; str_tok v; plain TCloseParen []]
-    | SPattern p => [plain TPipe []; plain TPattern []; str_tok p]
-    | SLineFormat p => [plain TPipe []; plain TLineFormat []; str_tok p]
-    | SUnpack => [plain TPipe []; plain TUnpack []]
-    | SDecolorize => [plain TPipe []; plain TDecolorize []]
-    | SDrop ls _ => plain TPipe [] :: plain TDrop [] :: print_names ls
-    | SKeep ls _ => plain TPipe [] :: plain TKeep [] :: print_names ls
-    | SDistinct ls => plain TPipe [] :: plain TDistinct [] :: print_names ls
-    | SJson ls _ => plain TPipe [] :: plain TJSON [] :: print_names ls
-    | SLogfmt ls _ => plain TPipe [] :: plain TLogfmt [] :: print_names ls
-    | SLabelFormat rs ts => plain TPipe [] :: plain TLabelFormat [] :: print_lf rs ts
+    | SLine o v false => [punct (lineop_tok o); str_tok v]
+    | SLine o v true => [punct (lineop_tok o); punct TIP; punct TOpenParen; str_tok v; punct TCloseParen]
+    | SPattern p => [punct TPipe; punct TPattern; str_tok p]
+    | SLineFormat p => [punct TPipe; punct TLineFormat; str_tok p]
+    | SUnpack => [punct TPipe; punct TUnpack]
+    | SDecolorize => [punct TPipe; punct TDecolorize]
+    | SDrop ls _ => punct TPipe :: punct TDrop :: print_names ls
+    | SKeep ls _ => punct TPipe :: punct TKeep :: print_names ls
+    | SDistinct ls => punct TPipe :: punct TDistinct :: print_names ls
+    | SJson ls _ => punct TPipe :: punct TJSON :: print_names ls
+    | SLogfmt ls _ => punct TPipe :: punct TLogfmt :: print_names ls
+    | SLabelFormat rs ts => punct TPipe :: punct TLabelFormat :: print_lf rs ts
     | _ => []
     end.
 
@@ -85,7 +85,7 @@ Section Pipeline.
     destruct t as [|l2 t'].
     - cbn [print_names app distinct_loop]. unfold bind at 1. cbn.
       destruct r as [|t0 r']; cbn; [reflexivity|]. cbn in Hr. rewrite Hr. reflexivity.
-    - change (print_names (l :: l2 :: t')) with (plain TIdent l :: plain TComma [] :: print_names (l2 :: t')).
+    - change (print_names (l :: l2 :: t')) with (plain TIdent l :: punct TComma :: print_names (l2 :: t')).
       cbn [app distinct_loop]. unfold bind at 1. cbn [parse_ident consume_text bind next rest prev is_ty ty plain ttype_eqb ttype_code Z.eqb Pos.eqb ret text].
       cbn. rewrite IH; [|discriminate|cbn in *; lia|exact Hr].
       rewrite <- app_assoc. cbn [app]. f_equal.
@@ -104,7 +104,7 @@ Section Pipeline.
       destruct r as [|t0 r']; cbn; [reflexivity|].
       specialize (Hop t0 r' eq_refl). rewrite Hop. cbn.
       cbn in Hr. rewrite Hr. reflexivity.
-    - change (print_names (l :: l2 :: t')) with (plain TIdent l :: plain TComma [] :: print_names (l2 :: t')).
+    - change (print_names (l :: l2 :: t')) with (plain TIdent l :: punct TComma :: print_names (l2 :: t')).
       cbn [app labels_and_matchers]. cbn. rewrite IH; [|discriminate|cbn in *; lia|exact Hr|exact Hop].
       rewrite <- app_assoc. cbn [app]. f_equal. f_equal. cbn [rev]. rewrite <- !app_assoc. reflexivity.
   Qed.
@@ -126,7 +126,7 @@ Section Pipeline.
         destruct r as [|t0 r']; cbn.
         * reflexivity.
         * cbn in Hr. destruct Hr as [H1 [H2 H3]]. rewrite H2, H3. cbn. rewrite H1. reflexivity.
-      + change (print_names (l :: l2 :: t')) with (plain TIdent l :: plain TComma [] :: print_names (l2 :: t')).
+      + change (print_names (l :: l2 :: t')) with (plain TIdent l :: punct TComma :: print_names (l2 :: t')).
         remember (print_names (l2 :: t')) as pn eqn:Epn.
         assert (Hh : exists tl, pn ++ r = plain TIdent l2 :: tl) by (subst pn; destruct t'; cbn; eauto).
         destruct Hh as [tl Htl].
@@ -155,7 +155,7 @@ Section Pipeline.
     destruct t as [|[dst2 tm2] t'].
     - cbn [print_tmpls app label_format_loop]. cbn. rewrite Hd. cbn.
       destruct r as [|t0 r']; cbn; [reflexivity|]. cbn in Hr. rewrite Hr. reflexivity.
-    - change (print_tmpls ((dst, tm) :: (dst2, tm2) :: t')) with (plain TIdent dst :: plain TEq [] :: str_tok tm :: plain TComma [] :: print_tmpls ((dst2, tm2) :: t')).
+    - change (print_tmpls ((dst, tm) :: (dst2, tm2) :: t')) with (plain TIdent dst :: punct TEq :: str_tok tm :: punct TComma :: print_tmpls ((dst2, tm2) :: t')).
       remember (print_tmpls ((dst2, tm2) :: t')) as pn eqn:Epn.
       cbn [app label_format_loop]. cbn. rewrite Hd. cbn. subst pn.
       rewrite IH; [|discriminate|cbn in *; lia|exact Hr|exact Hnd'|].
